@@ -27,8 +27,10 @@ BOUNDED_STANDINS = {
             ("raw JSON framing (_JSONParser.raw_parse, _split_partial_document)", ["drivers/json_raw.py", "--pairs", "--max-len"], {"quick": "3", "thorough": "4"})],
     "C02": [("shipped framings end to end on the real code: raw JSON, zlib / bz2 wrappers, length-prefixed file-based subclass, base64, line, struct - valid in-limit packets and one malformed frame under every chunking tried, both receive paths", ["drivers/framings.py", "--budget"], {"quick": "300000", "thorough": "3000000"}),
             ("raw JSON framing (_JSONParser.raw_parse, _split_partial_document)", ["drivers/json_raw.py", "--pairs", "--max-len"], {"quick": "3", "thorough": "4"})],
-    "C06": [("shipped framings end to end on the real code: raw JSON, zlib / bz2 wrappers, length-prefixed file-based subclass, base64, line, struct - valid in-limit packets and one malformed frame under every chunking tried, both receive paths", ["drivers/framings.py", "--budget"], {"quick": "300000", "thorough": "3000000"}),
+    "C06": [("one-shot interface of the shipped serializers on the real code: deserialize(serialize(p)) == p through the serializer and DatagramProtocol; malformed / doubled / truncated datagrams", ["drivers/framings.py", "--oneshot"], {"quick": "", "thorough": ""}),
+            ("shipped framings end to end on the real code: raw JSON, zlib / bz2 wrappers, length-prefixed file-based subclass, base64, line, struct - valid in-limit packets and one malformed frame under every chunking tried, both receive paths", ["drivers/framings.py", "--budget"], {"quick": "300000", "thorough": "3000000"}),
             ("raw JSON framing (_JSONParser.raw_parse, _split_partial_document)", ["drivers/json_raw.py", "--max-len"], {"quick": "3", "thorough": "4"})],
+    "C05": [("one-shot interface of the shipped serializers on the real code: deserialize(serialize(p)) == p through the serializer and DatagramProtocol; malformed / doubled / truncated datagrams", ["drivers/framings.py", "--oneshot"], {"quick": "", "thorough": ""})],
     "C07": [("shipped framings end to end on the real code: raw JSON, zlib / bz2 wrappers, length-prefixed file-based subclass, base64, line, struct - valid in-limit packets and one malformed frame under every chunking tried, both receive paths", ["drivers/framings.py", "--budget"], {"quick": "300000", "thorough": "3000000"})],
     "C12": [("FairLock.acquire/release/_wake_up_first (rely-guarantee over a queue of waiters: not brought under contract)", ["drivers/fair_lock.py"], {"quick": "", "thorough": ""})],
 }
@@ -92,6 +94,8 @@ def _worker(key: str) -> dict:
         rec["paths"] = eng.paths_explored
         rec["pruned"] = eng.infeasible_pruned
         rec["inlined"] = sorted(eng.inlined)
+        rec["dead_handlers"] = sorted(f"{k[0]}:line {k[1]}" for k, v in eng.handlers_seen.items() if not v and k[0].startswith("easynetwork/"))
+        rec["inlined_sha"] = _sha_of(_P, rec["inlined"])
         rec["trusted_used"] = sorted(eng.trusted_used)
         rec["contracts_used"] = sorted(eng.contracts_used)
     except EngineError as ex:
@@ -102,6 +106,21 @@ def _worker(key: str) -> dict:
         rec["error"] = "crash: " + traceback.format_exc()[-1500:]
     rec["wall_s"] = round(time.time() - t0, 3)
     return rec
+
+
+def _sha_of(P, keys) -> dict:
+    """source hashes of the repository functions interpreted as part of a caller (inlined): a change in one of them is a change
+    of the verified text of the caller"""
+    out = {}
+    for k in keys:
+        rel, _, qn = k.partition(":")
+        if not rel.startswith("easynetwork/"):
+            continue
+        try:
+            out[k] = P.find_function(rel, qn).sha256()
+        except Exception:  # noqa: BLE001
+            out[k] = "missing"
+    return out
 
 
 def load_json(path, default):
@@ -186,7 +205,8 @@ def run_property(prop: str, tier: str, seed: int, update_baseline: bool = False)
     for rec in recs:
         key = rec["key"]
         base = baseline.get(key)
-        src_same = base is not None and base.get("sha256") == rec.get("sha256")
+        src_same = base is not None and base.get("sha256") == rec.get("sha256") and \
+            _sha_of(P, list(base.get("inlined_sha", {}))) == base.get("inlined_sha", {})
         functions.append({k: rec.get(k) for k in ("key", "file", "qualname", "lines", "sha256", "paths", "wall_s")})
         if rec["error"]:
             if src_same or base is None:
@@ -201,7 +221,7 @@ def run_property(prop: str, tier: str, seed: int, update_baseline: bool = False)
         if src_same and sorted(base["obligations"]) != sorted(ids) and not update_baseline:
             errors.append(f"{key}: obligation set differs from the recorded baseline for identical source "
                           f"({len(base['obligations'])} recorded, {len(ids)} generated)")
-        new_baseline[key] = {"sha256": rec.get("sha256"), "obligations": sorted(ids)}
+        new_baseline[key] = {"sha256": rec.get("sha256"), "obligations": sorted(ids), "inlined_sha": rec.get("inlined_sha", {})}
         # every outcome the contract declares must be reachable on at least one live path (guards against contracts
         # that "hold" because a callee contract or an assumption silently killed the paths)
         c_decl = R.contracts[key]
@@ -387,6 +407,7 @@ def run_property(prop: str, tier: str, seed: int, update_baseline: bool = False)
             "bounded_standins": bounded,
             "undischarged": [v["id"] for v in violations],
             "failed_clauses_of_other_properties": foreign,
+            "except_clauses_never_entered_under_the_contracts": sorted({d for r in recs for d in r.get("dead_handlers", [])}),
             "tagged_obligations": sum(1 for r in recs for o in r["obligations"] if prop in o["tags"]),
             "explanation": "VCs generated from the AST of /repo/src on this run by the PyVC symbolic executor against sidecar contracts; "
                            "discharged by z3 (rlimit) then cvc5; see DESIGN.md §2",
